@@ -79,7 +79,7 @@ def c02_reads(tier):
     t = tier[0]
     n = 3 if tier == "quick" else 4
     return [thin("C02", tier, "thin_frames_" + t, THIN_OPS, n, 2, 1, 1),
-            sized("C02", tier, "sized_frames_" + t, BASE + CONV_CORE + ["Borrow", "Enter", "Exit"], n, 2, 1, hows=("new", "newB")),
+            sized("C02", tier, "sized_frames_" + t, BASE + CONV_CORE + ["Borrow", "Enter", "Exit", "Unsize", "UnsizeUnq", "ShareableDyn", "TryUnwrap", "IntoInner"], n, 2, 1, hows=("new", "newB", "unique")),
             stage(CT.ctor_stage, "C02", tier, "observers_" + t, ["observe"], True,
                   only_cats=["count", "poison", "drops", "frees", "baddrop", "crash"])]
 
@@ -118,7 +118,9 @@ def c05(tier, seed):
             mm("C05", tier, "mm_release_" + tier[0], [("c05_2x3", ["clone", "drop", "make_mut"], 2, 3, 2, False)] if tier == "quick" else
                [("c05_2x3", ["clone", "drop", "make_mut"], 2, 3, 2, False), ("c05_2x3u", ["clone", "drop", "unwrap_or_clone", "try_unwrap"], 2, 3, 2, False),
                 ("c05_3x2", ["clone", "drop", "make_mut"], 3, 2, 1, False)]),
-            inj("C05", tier)]
+            inj("C05", tier),
+            # the thin family: a callback that replaced the Arc (and then unwound) leaves every block released exactly once
+            thin("C05", tier, "thin_release_" + tier[0], THIN_OPS, 3 if tier == "quick" else 4, 2, 1, 1)]
 
 
 def c11(tier, seed):
@@ -393,11 +395,13 @@ def c12(tier, seed):
         return [sized("C12", tier, "sized_union_q", ops, 4, 2, 1, hows=("new", "newB")), lay("C12", tier, "layout_matrix_q"),
                 stage(CM.compare_stage, "C12", tier, "union_variants_q", only=["different variants"]),
                 stage(CT.ctor_stage, "C12", tier, "union_release_q", ["union_drop"], True), inj("C12", tier),
-                stage(LY.widths_stage, "C12", tier, "widths_q"), stage(OV.overflow_stage, "C12", tier, "overflow_q")]
+                stage(LY.widths_stage, "C12", tier, "widths_q"), stage(OV.overflow_stage, "C12", tier, "overflow_q"),
+                stage(CT.ctor_stage, "C12", tier, "observers_q", ["observe"], True, only_cats=["count", "poison", "drops", "baddrop", "crash"])]
     return [sized("C12", tier, "sized_union_t", ops, 5, 2, 1, hows=("new", "newB")), lay("C12", tier, "layout_matrix_t"),
             stage(CM.compare_stage, "C12", tier, "union_variants_t", only=["different variants"]),
             stage(CT.ctor_stage, "C12", tier, "union_release_t", ["union_drop"], True), inj("C12", tier),
-                stage(LY.widths_stage, "C12", tier, "widths_t"), stage(OV.overflow_stage, "C12", tier, "overflow_t")]
+                stage(LY.widths_stage, "C12", tier, "widths_t"), stage(OV.overflow_stage, "C12", tier, "overflow_t"),
+                stage(CT.ctor_stage, "C12", tier, "observers_t", ["observe"], True, only_cats=["count", "poison", "drops", "baddrop", "crash"])]
 
 
 GRAPH_ASSUME = [
